@@ -178,11 +178,29 @@ def validators_accept_exactly(ctx):
         yield Ob("C14.R2", ["C14"], f"{vk.qual} | {slot} keyword accepted types", ok,
                  f"accepts exactly {{{typ}}}" if ok else f"accepts {sorted(acc) if acc is not None else None}, documented {{{typ}}}",
                  vk.loc())
+    from ..logic import guard_clauses, guards
     for slot, val in (("tags", "validate_tags"), ("fields", "validate_fields")):
-        ok = any(isinstance(n, ast.Call) and call_name(n) == val and n.args and norm(n.args[0]) == f"kwargs['{slot}']"
-                 for n in walk_local(vk.node))
-        yield Ob("C14.R2", ["C14"], f"{vk.qual} | {slot} keyword goes through {val}", ok,
-                 f"{val}(kwargs['{slot}'])" if ok else f"{slot} keyword is not validated by {val}", vk.loc())
+        calls = [n for n in walk_local(vk.node) if isinstance(n, ast.Call) and call_name(n) == val and n.args
+                 and norm(n.args[0]) == f"kwargs['{slot}']"]
+        ok = bool(calls)
+        msg = f"{val}(kwargs['{slot}']) whenever the keyword is given"
+        if not calls:
+            msg = f"{slot} keyword is not validated by {val}"
+        for c in calls:
+            cl = guard_clauses(guards(c, siblings=False))
+            want = {frozenset([(f"in('{slot}',kwargs)", True)])}
+            if cl != want:
+                ok = False
+                extra = sorted(map(sorted, cl - want))
+                msg = (f"{val} runs only under {sorted(map(sorted, cl))}: with the extra condition(s) {extra} a supplied "
+                       f"`{slot}` keyword can skip validation")
+        yield Ob("C14.R2", ["C14"], f"{vk.qual} | {slot} keyword goes through {val}", ok, msg, vk.loc())
+    for n in walk_local(vk.node):
+        if isinstance(n, ast.If) and any(isinstance(s_, ast.Raise) for s_ in n.body):
+            cl = guard_clauses(guards(n, siblings=False))
+            if cl:
+                yield Ob("C14.R2", ["C14"], f"{vk.qual} | check `{norm(n.test, 50)}` is unconditional", False,
+                         f"this check only runs under {sorted(map(sorted, cl))}", ctx.prog.loc(n))
     # updater's static scalar arguments
     gen = ctx.prog.func("TinyFlux._generate_updater", "C14.R2")
     for slot, typ in (("time", "datetime"), ("measurement", "str")):
